@@ -69,13 +69,13 @@ func runMeta(c *Ctx) {
 		tiers = []tier{{leavesFull, 3, tokMeta, 3}, {leavesFull, 3, tokMetaSm, 4}, {leavesMid, 4, tokMetaSm, 3}}
 	}
 	idx := 0
+	var asLang []langTier
+	for _, t := range tiers {
+		asLang = append(asLang, langTier{leaves: t.leaves, maxSize: t.size, toks: t.toks, maxLen: t.alen})
+	}
 	for ti, t := range tiers {
 		g := ref.NewSpecGen(t.leaves)
-		argvs := ref.Argvs(t.toks, t.alen)
-		readings := make([]ref.Reading, len(argvs))
-		for i, a := range argvs {
-			readings[i] = ref.ReadAll(d, a)
-		}
+		argvsAll := ref.Argvs(t.toks, t.alen)
 		nfree, nend := 0, 0
 		for n := 1; n <= t.size; n++ {
 			for _, spec := range g.Specs(n) {
@@ -98,6 +98,18 @@ func runMeta(c *Ctx) {
 					}
 					continue
 				}
+				// base command lines already explored for this spec by an earlier tier are skipped
+				cov := newCoverage(asLang[:ti], spec, n, false)
+				var argvs [][]string
+				for _, a := range argvsAll {
+					if !cov.covers(a) {
+						argvs = append(argvs, a)
+					}
+				}
+				readings := make([]ref.Reading, len(argvs))
+				for i, a := range argvs {
+					readings[i] = ref.ReadAll(d, a)
+				}
 				tab := &outcomeTable{d: d, spec: spec, memo: map[string]string{}}
 				if c.On("C10") {
 					metaC10(c, tab, argvs, readings)
@@ -112,7 +124,7 @@ func runMeta(c *Ctx) {
 			}
 		}
 		if c.Shard == 0 {
-			c.Note(fmt.Sprintf("tier %d", ti), fmt.Sprintf("%d `--`-free specs and %d specs with `--` (size<=%d over %d leaves) x %d argvs (length<=%d over %q)", nfree, nend, t.size, len(t.leaves), len(argvs), t.alen, t.toks))
+			c.Note(fmt.Sprintf("tier %d", ti), fmt.Sprintf("%d `--`-free specs and %d specs with `--` (size<=%d over %d leaves) x %d argvs (length<=%d over %q); base command lines already covered by an earlier tier are skipped", nfree, nend, t.size, len(t.leaves), len(argvsAll), t.alen, t.toks))
 		}
 	}
 }
